@@ -133,38 +133,87 @@ def rule_rt4(A: Analysis, rep):
     rep.expect_min("RT4", 10)
 
 
+def _renderings(A, x: ast.expr, fi, val: str):
+    """Conditional renderings of a value expression: IfExp split; a call to a repo function of the
+    value alone is replaced by that function's conditional return values."""
+    from ..analysis import _split_ifexp, canon
+    out = []
+    if isinstance(x, ast.Call) and len(x.args) == 1 and not x.keywords and norm(x.args[0]) == val:
+        cs = [c for c in A.res.callees(x) if c in A.prog.functions]
+        if len(cs) == 1:
+            f2 = A.prog.functions[cs[0]]
+            if len(f2.params) == 1:
+                return [(c, v) for c, v in A.ret_values(f2, bind={f2.params[0]: val})]
+    for (gs, v) in _split_ifexp(A, x, fi):
+        for c in gs:
+            out.append((c, norm(canon(v))))
+    return out
+
+
 def _serializer_ok(A, fi, iter_text, fmt_const) -> bool:
-    loops = [l for l in fi.node.body if isinstance(l, ast.For)]
-    if len(loops) != 1 or norm(loops[0].iter) != iter_text:
-        return False
-    l = loops[0]
-    if len(l.body) != 1 or not isinstance(l.body[0], ast.If):
-        return False
-    i = l.body[0]
-    val = norm(l.target) if fmt_const is None else norm(l.target.elts[1])
-    if norm(i.test) != "isinstance(%s, bool)" % val:
-        return False
-    lst = None
-    def app(st):
-        if isinstance(st, ast.Expr) and isinstance(st.value, ast.Call) and isinstance(st.value.func, ast.Attribute) and st.value.func.attr == "append":
-            return norm(st.value.func.value), norm(st.value.args[0])
-        return None, None
-    if len(i.body) != 1 or len(i.orelse) != 1:
-        return False
-    l1, v1 = app(i.body[0])
-    l2, v2 = app(i.orelse[0])
-    if l1 is None or l1 != l2:
-        return False
-    if fmt_const is None:
-        if v1 != "'true' if %s else 'false'" % val or v2 != "str(%s)" % val:
-            return False
-    else:
-        key = norm(l.target.elts[0])
-        if v1 != "%s.format(key=%s, value='true' if %s else 'false')" % (fmt_const, key, val) or v2 != "%s.format(key=%s, value=str(%s))" % (fmt_const, key, val):
-            return False
+    """The serialiser renders every element of `iter_text`, in order, as
+    'true'/'false' for bools (tested before anything else) and str(value) otherwise, joined by ' '."""
+    from ..analysis import _and_all, _simplify
+    g = A.cfg(fi, "plain")
     rets = [x for x in walk_local(fi.node) if isinstance(x, ast.Return)]
-    init = A.single_def_value(fi, l1)
-    return len(rets) == 1 and norm(rets[0].value) == "' '.join(%s)" % l1 and init is not None and norm(init) == "[]"
+    if len(rets) != 1 or not (isinstance(rets[0].value, ast.Call) and norm(rets[0].value.func) == "' '.join" and len(rets[0].value.args) == 1):
+        return False
+    src = rets[0].value.args[0]
+    elems = []  # (guard, element expr, value var, key var)
+    comp = src if isinstance(src, (ast.ListComp, ast.GeneratorExp)) else None
+    if comp is None and isinstance(src, ast.Name):
+        v = A.single_def_value(fi, src.id)
+        if isinstance(v, (ast.ListComp, ast.GeneratorExp)):
+            comp = v
+    if comp is not None:
+        if len(comp.generators) != 1 or comp.generators[0].ifs or norm(comp.generators[0].iter) != iter_text:
+            return False
+        tgt = comp.generators[0].target
+        elems.append((frozenset(), comp.elt, tgt))
+    else:
+        if not isinstance(src, ast.Name):
+            return False
+        lst = src.id
+        init = A.single_def_value(fi, lst)
+        loops = [l for l in fi.node.body if isinstance(l, ast.For) and norm(l.iter) == iter_text]
+        if len(loops) != 1 or init is None or norm(init) != "[]":
+            return False
+        l = loops[0]
+        if any(isinstance(x, (ast.Break, ast.Continue, ast.Return)) for x in walk_local(l)):
+            return False
+        hdr = [n for n in g.nodes if n.kind == "for" and n.ast is l][0]
+        be = [x for (x, lb) in hdr.succ if lb == "T"][0]
+        apps = [n for n in g.nodes if n.kind == "stmt" and norm(n.ast).startswith("%s.append(" % lst) and id(n.ast) in {id(x) for x in ast.walk(l)}]
+        # every iteration appends exactly once
+        r = g.reach([be], removed=apps, skip_labels=is_exc)
+        if any(any(m is hdr and is_back(lb) for m, lb in n.succ) for n in r):
+            return False
+        for a in apps:
+            for c in A.path_guards(g, be, a, fi):
+                elems.append((c, a.ast.value.args[0], l.target))
+    got = set()
+    for (gd, el, tgt) in elems:
+        if fmt_const is None:
+            val = norm(tgt)
+            x = el
+        else:
+            if not (isinstance(tgt, ast.Tuple) and len(tgt.elts) == 2):
+                return False
+            key, val = norm(tgt.elts[0]), norm(tgt.elts[1])
+            if not (isinstance(el, ast.Call) and norm(el.func) == "%s.format" % fmt_const and not el.args):
+                return False
+            kw = {k.arg: k.value for k in el.keywords}
+            if set(kw) != {"key", "value"} or norm(kw["key"]) != key:
+                return False
+            x = kw["value"]
+        for (c, v) in _renderings(A, x, fi, val):
+            cc = frozenset(gd | c)
+            got.add((frozenset(a for a in cc if a[0] in ("t(isinstance(%s, bool))" % val, "t(%s)" % val)), v))
+    # merge: drop subsumed alternatives
+    want = {(frozenset({("t(isinstance(%s, bool))" % val, True), ("t(%s)" % val, True)}), "'true'"),
+            (frozenset({("t(isinstance(%s, bool))" % val, True), ("t(%s)" % val, False)}), "'false'"),
+            (frozenset({("t(isinstance(%s, bool))" % val, False)}), "str(%s)" % val)}
+    return got == want
 
 
 def rule_dep1(A: Analysis, rep):
